@@ -220,3 +220,51 @@ pub fn table(t: &GlobalTable) -> String {
     }
     format!("{{{}}}", items.join(" "))
 }
+
+pub fn global_ref(r: &Reference<GlobalDeclaration>) -> String {
+    rf(r, global)
+}
+
+/// Remove build and semantic messages (`!Name...@a-b`) from a dump, keep lexical and syntax ones.
+pub fn strip_sem(s: &str) -> String {
+    const SYNTAX: &[&str] = &[
+        "MissingClosingTick", "ExpectedHexNumber", "InvalidIntLit", "MissingOpening", "MissingClosing",
+        "MissingTrailingSemic", "UnexpectedCharacters", "ExpectedToken", "ConfusedToken",
+    ];
+    let mut out = String::new();
+    let mut rest = s;
+    while let Some(i) = rest.find('!') {
+        out.push_str(&rest[..i]);
+        let tail = &rest[i + 1..];
+        // message ends at the range `@a-b`
+        let at = tail.find('@').unwrap_or(tail.len());
+        let after = &tail[at..];
+        let mut end = at + 1;
+        let bytes = after.as_bytes();
+        let mut j = 1;
+        while j < bytes.len() && (bytes[j].is_ascii_digit() || bytes[j] == b'-') {
+            j += 1;
+        }
+        end = end - 1 + j;
+        let msg = &tail[..end];
+        let name = msg.split(|c| c == ':' || c == '@').next().unwrap_or("");
+        if SYNTAX.contains(&name) {
+            out.push('!');
+            out.push_str(msg);
+        }
+        rest = &tail[end..];
+    }
+    out.push_str(rest);
+    out
+}
+
+pub trait RangeEnd {
+    fn to_range_end(&self) -> usize;
+}
+
+impl RangeEnd for Reference<GlobalDeclaration> {
+    fn to_range_end(&self) -> usize {
+        use spl_frontend::ToRange;
+        self.reference.to_range().end
+    }
+}
